@@ -187,7 +187,9 @@ def r3(ctx):
                 if rets or (v == "Suspend" and sv):
                     ok = False
                 if v == "Panic":
-                    okp = (not rets) and len(sv) == 1
+                    # the one report is sent in the Panic arm, or once on the way to the test (a send that every path to the test passes)
+                    before = [x for x in sends if x != sbb and tn.dominated_by_block(sbb, x)]
+                    okp = (not rets) and len(sv) + len(before) == 1
         ctx.inst(R, "trigger_noop:suspend-and-panic-diverge", ok, tn.span, "trigger_noop panics for Suspend / Panic barriers" if ok else "trigger_noop reports or returns for a Suspend barrier / returns for a Panic barrier")
         ctx.inst(R, "trigger_noop:panic-reports-first", bool(okp), tn.span, "trigger_noop reports the trigger to a Panic barrier before panicking" if okp else
                  "trigger_noop panics for a Panic barrier without reporting the trigger that matched it")
